@@ -40,15 +40,20 @@ const (
 	bReadErr
 	bWrongHeight
 	bUnavail // the peer's announced height is below the requested one: it must not even be asked
+	bLate    // the peer's announced height is below the requested one until lateAt of virtual time (the whole first pass of a height: 50 tries 400 ms apart); from then on it serves the height
 	nBehav
 )
 
-var bname = []string{"serve", "refuse-stream", "malformed-reply", "read-error", "wrong-height", "height-unavailable"}
+// lateAt lies between the 50th try of the first pass (19.6 s) and the moment the pass gives up (20.0 s).
+const lateAt = int64(19800 * 1e6)
+
+var bname = []string{"serve", "refuse-stream", "malformed-reply", "read-error", "wrong-height", "height-unavailable", "height-available-late"}
 
 type req struct {
 	peer   int
 	height int64
 	failed bool
+	second bool // issued by the re-download pass (checkTask runs in the handler's own thread, the first pass in per-height goroutines)
 }
 
 type world struct {
@@ -161,13 +166,21 @@ func (s *lazyStream) Read(p []byte) (int, error) {
 		if hi >= 0 && hi < len(w.behav[s.pi]) {
 			b = w.behav[s.pi][hi]
 		}
-		r := req{peer: s.pi, height: h}
+		r := req{peer: s.pi, height: h, second: vrt.CurID() == 0}
 		blk := func(height int64) *types.MessageGetBlocksResp {
 			return &types.MessageGetBlocksResp{Message: &types.InvDatas{Items: []*types.InvData{{Ty: 2, Value: &types.InvData_Block{Block: &types.Block{Height: height, TxHash: []byte(fmt.Sprint("blk", height))}}}}}}
 		}
 		switch b {
 		case bServe:
 			s.rd = bytes.NewReader(encodeResp(blk(h)))
+		case bLate:
+			if vrt.Clock() < lateAt {
+				w.bad = append(w.bad, fmt.Sprintf("peer %d was asked for height %d above its (then) announced height", s.pi, h))
+				s.readErr = io.ErrUnexpectedEOF
+				r.failed = true
+			} else {
+				s.rd = bytes.NewReader(encodeResp(blk(h)))
+			}
 		case bWrongHeight:
 			s.rd = bytes.NewReader(encodeResp(blk(h + 100)))
 			r.failed = true // a block of another height is not a service of this height
@@ -210,7 +223,7 @@ func (m fpim) PeerHeight(p peer.ID) int64 {
 			// announced height = highest height this peer does not mark unavailable
 			hmax := w.start - 1
 			for hi, b := range w.behav[i] {
-				if b != bUnavail {
+				if b != bUnavail && !(b == bLate && vrt.Clock() < lateAt) {
 					hmax = w.start + int64(hi)
 				}
 			}
@@ -268,7 +281,7 @@ func (w *world) verdict() (fp, what string) {
 		h := w.start + int64(hi)
 		servable := false
 		for p := range w.behav {
-			if w.behav[p][hi] == bServe {
+			if w.behav[p][hi] == bServe || w.behav[p][hi] == bLate {
 				servable = true
 			}
 		}
@@ -289,12 +302,15 @@ func (w *world) verdict() (fp, what string) {
 			hi := int(r.height - w.start)
 			servable := false
 			for p := range w.behav {
-				if hi >= 0 && hi < len(w.behav[p]) && w.behav[p][hi] == bServe {
+				if hi >= 0 && hi < len(w.behav[p]) && (w.behav[p][hi] == bServe || w.behav[p][hi] == bLate) {
 					servable = true
 				}
 			}
 			if !servable {
 				return "failed-peer-asked-again:re-download-pass-of-a-height-nobody-serves", fmt.Sprintf("peer %d failed height %d and was asked for it again in the same task (by the re-download pass; no peer serves that height)", r.peer, r.height)
+			}
+			if r.second {
+				return "failed-peer-asked-again:re-download-pass-of-a-height-that-became-available-late", fmt.Sprintf("peer %d failed height %d and was asked for it again in the same task (by the re-download pass; the height failed the first pass because the peer that serves it announced it too late)", r.peer, r.height)
 			}
 			return "failed-peer-asked-again", fmt.Sprintf("peer %d failed height %d and was asked for it again in the same task", r.peer, r.height)
 		}
@@ -308,7 +324,7 @@ func (w *world) verdict() (fp, what string) {
 func main() {
 	r := vx.Start("C35", "model_checking")
 	clog.SetLogLevel("crit")
-	r.Rule = "controlled-scheduler exploration of the instrumented download package: the real handleEventDownloadBlock task over P in-memory peers and a range of H heights; the behaviour of every (peer,height) is enumerated over {serve, refuse stream, malformed reply (7 shapes: empty, no items, declared block type with a transaction payload / without payload, transaction item, block item without block, nil item — chosen like a scheduling decision), read error, wrong height, height unavailable} with at most one height that no peer serves (for the termination clause); per assignment every schedule of the per-height goroutines within the deviation bound. distinct = (assignment class, #requests, #failures) classes"
+	r.Rule = "controlled-scheduler exploration of the instrumented download package: the real handleEventDownloadBlock task over P in-memory peers and a range of H heights; the behaviour of every (peer,height) is enumerated over {serve, refuse stream, malformed reply (7 shapes: empty, no items, declared block type with a transaction payload / without payload, transaction item, block item without block, nil item — chosen like a scheduling decision), read error, wrong height, height unavailable, height available only after the first pass} with at most one height that no peer serves (for the termination clause); per assignment every schedule of the per-height goroutines within the deviation bound. distinct = (assignment class, #requests, #failures) classes"
 	r.Assume = []string{"the libp2p host, peer store, peer-info manager and queue client are in-memory fakes behind the package's own interfaces; stream codecs (protocol.Read/WriteStream) are the real ones", "distinct peer latencies fix the initial sort order", "virtual time for the 400 ms back-off"}
 	r.StateCounter = "tree_nodes"
 	r.DistinctSet = "outcomes"
@@ -318,9 +334,12 @@ func main() {
 	}
 	// the last quick shape: three peers and two heights (the per-height goroutines then hold different
 	// views of the shared peer list) over the three behaviours that shape the list: serve, refuse, too low
-	shapes := []shape{{2, 2, 2, nil}, {3, 1, 2, nil}, {3, 2, 2, []int{bServe, bRefuse, bUnavail}}}
+	// the shapes with "late" peers: heights that a peer serves but that fail the whole first pass (the peer's
+	// announced height rises only afterwards) and are left to the re-download pass; the 50 tries make these
+	// executions long, hence the small bounds
+	shapes := []shape{{2, 2, 2, nil}, {3, 1, 2, nil}, {3, 2, 2, []int{bServe, bRefuse, bUnavail}}, {1, 2, 1, []int{bServe, bLate}}, {2, 2, 0, []int{bRefuse, bLate}}}
 	if !r.Quick() {
-		shapes = []shape{{2, 2, 3, nil}, {3, 1, 3, nil}, {3, 2, 2, nil}, {2, 3, 2, nil}, {4, 2, 2, []int{bServe, bRefuse, bUnavail}}}
+		shapes = []shape{{2, 2, 3, nil}, {3, 1, 3, nil}, {3, 2, 2, nil}, {2, 3, 2, nil}, {4, 2, 2, []int{bServe, bRefuse, bUnavail}}, {1, 3, 1, []int{bServe, bLate}}, {2, 2, 1, []int{bServe, bRefuse, bLate}}, {2, 3, 0, []int{bRefuse, bLate, bUnavail}}}
 	}
 	behavSet := []int{bServe, bRefuse, bMalformed, bWrongHeight, bUnavail}
 	if !r.Quick() {
@@ -450,7 +469,7 @@ func main() {
 			for h := 0; h < sh.H; h++ {
 				s := false
 				for p := 0; p < sh.P; p++ {
-					s = s || a[p][h] == bServe
+					s = s || a[p][h] == bServe || a[p][h] == bLate
 				}
 				if !s {
 					unserved++
@@ -463,6 +482,9 @@ func main() {
 			for p := 0; p < sh.P; p++ {
 				for h := 0; h+1 < sh.H; h++ {
 					if a[p][h] == bUnavail && a[p][h+1] != bUnavail {
+						ok = false
+					}
+					if a[p][h] == bLate && a[p][h+1] != bUnavail && a[p][h+1] != bLate {
 						ok = false
 					}
 				}
